@@ -99,6 +99,21 @@ int main(int argc, char **argv) {
       r = sexp_eval_string(ctx, prog, -1, NULL);
       free(prog);
     }
+    else if (!strcmp(f[0], "read") && nf >= 2) {
+      /* the reader alone on hostile text: read data until end of input or the first error */
+      size_t n = strlen(f[1]) / 2, i; char *txt = malloc(n + 1); long cnt = 0;
+      for (i = 0; i < n; i++) txt[i] = (char)(hexv(f[1][2*i]) * 16 + hexv(f[1][2*i+1]));
+      txt[n] = 0;
+      a = sexp_c_string(ctx, txt, n);
+      b = sexp_open_input_string(ctx, a);
+      free(txt);
+      for (;;) {
+        r = sexp_read(ctx, b);
+        if (r == SEXP_EOF || sexp_exceptionp(r) || cnt > 100000) break;
+        cnt++;
+      }
+      if (!sexp_exceptionp(r)) r = sexp_make_fixnum(cnt);
+    }
     else { printf("ERR unknown request\n"); fflush(stdout); continue; }
     prres(r);
     /* containment: same context, later program, same answer; stack top restored */
